@@ -423,6 +423,14 @@ impl NodeSession {
         if let Some(msg) = message.msg {
             match msg {
                 node_protocol::node_message::Msg::Cast(cast_args) => {
+                    #[cfg(ractor_verif)]
+                    crate::verif::sess_fwd(
+                        &self.this_node_name.name,
+                        cast_args.to,
+                        "cast",
+                        0,
+                        state.authorized_local_actor(cast_args.to).is_some(),
+                    );
                     if let Some(actor) = state.authorized_local_actor(cast_args.to) {
                         let _ = actor.send_serialized(SerializedMessage::Cast {
                             variant: cast_args.variant,
@@ -434,6 +442,14 @@ impl NodeSession {
                 node_protocol::node_message::Msg::Call(call_args) => {
                     let to = call_args.to;
                     let tag = call_args.tag;
+                    #[cfg(ractor_verif)]
+                    crate::verif::sess_fwd(
+                        &self.this_node_name.name,
+                        to,
+                        "call",
+                        tag,
+                        state.authorized_local_actor(to).is_some(),
+                    );
                     if let Some(actor) = state.authorized_local_actor(call_args.to) {
                         let (tx, rx) = ractor::concurrency::oneshot();
 
@@ -496,6 +512,13 @@ impl NodeSession {
                     }
                 }
                 node_protocol::node_message::Msg::Reply(call_reply_args) => {
+                    #[cfg(ractor_verif)]
+                    crate::verif::sess_reply(
+                        &self.this_node_name.name,
+                        call_reply_args.to,
+                        call_reply_args.tag,
+                        state.remote_actors.contains_key(&call_reply_args.to),
+                    );
                     if let Some(actor) = state.remote_actors.get(&call_reply_args.to) {
                         let _ = actor.send_serialized(SerializedMessage::CallReply(
                             call_reply_args.tag,
@@ -537,6 +560,8 @@ impl NodeSession {
                 },
                 control_protocol::control_message::Msg::Spawn(spawned_actors) => {
                     for net_actor in spawned_actors.actors {
+                        #[cfg(ractor_verif)]
+                        crate::verif::sess_ctl(&self.this_node_name.name, "spawn", net_actor.pid, "");
                         if let Err(spawn_err) = self
                             .get_or_spawn_remote_actor(
                                 &myself,
@@ -554,6 +579,8 @@ impl NodeSession {
                 }
                 control_protocol::control_message::Msg::Terminate(termination) => {
                     for pid in termination.ids {
+                        #[cfg(ractor_verif)]
+                        crate::verif::sess_ctl(&self.this_node_name.name, "term", pid, "");
                         if let Some(actor) = state.remote_actors.remove(&pid) {
                             actor
                                 .stop_and_wait(Some("remote".to_string()), None)
@@ -581,6 +608,8 @@ impl NodeSession {
                 control_protocol::control_message::Msg::PgJoin(join) => {
                     let mut cells = vec![];
                     for control_protocol::Actor { name, pid } in join.actors {
+                        #[cfg(ractor_verif)]
+                        crate::verif::sess_ctl(&self.this_node_name.name, "join", pid, &join.group);
                         match self
                             .get_or_spawn_remote_actor(&myself, name, pid, state)
                             .await
@@ -607,6 +636,8 @@ impl NodeSession {
                 control_protocol::control_message::Msg::PgLeave(leave) => {
                     let mut cells = vec![];
                     for control_protocol::Actor { pid, .. } in leave.actors {
+                        #[cfg(ractor_verif)]
+                        crate::verif::sess_ctl(&self.this_node_name.name, "leave", pid, &leave.group);
                         if let Some(actor) = state.remote_actors.get(&pid) {
                             cells.push(actor.get_cell());
                         }
